@@ -119,6 +119,7 @@ func (r *Receiver) SegmentHandlerFunc(w http.ResponseWriter, req *http.Request) 
 
 	var ofh *os.File
 	var filePath string
+	var deleteSegPath string // old segment to remove when this upload has been accepted
 
 	trName := stream.trName
 	ch.mu.RLock()
@@ -238,14 +239,9 @@ func (r *Receiver) SegmentHandlerFunc(w http.ResponseWriter, req *http.Request) 
 					}
 				}
 				if maxNrBufSegs > 0 {
-					deleteSegPath := filepath.Join(stream.trDir, fmt.Sprintf("%d%s", rsd.seqNr-maxNrBufSegs, stream.ext))
-					if fileExists(deleteSegPath) {
-						log.Debug("Deleting old segment", "path", deleteSegPath)
-						err = os.Remove(deleteSegPath)
-						if err != nil {
-							log.Warn("Failed to delete old segment", "path", deleteSegPath, "err", err)
-						}
-					}
+					// The old segment is only removed once this upload has been accepted (see below):
+					// a refused upload must not delete a segment that may still be listed.
+					deleteSegPath = filepath.Join(stream.trDir, fmt.Sprintf("%d%s", rsd.seqNr-maxNrBufSegs, stream.ext))
 				}
 			}
 			if rsd.chunkNr > 0 {
@@ -323,6 +319,13 @@ func (r *Receiver) SegmentHandlerFunc(w http.ResponseWriter, req *http.Request) 
 			log.Error("Failed to receive all bytes", "nrBytesReceived", rsd.totSize, "contentLength", contentLength)
 		}
 		if rsd.chunkNr > 0 {
+			if deleteSegPath != "" && fileExists(deleteSegPath) {
+				log.Debug("Deleting old segment", "path", deleteSegPath)
+				err = os.Remove(deleteSegPath)
+				if err != nil {
+					log.Warn("Failed to delete old segment", "path", deleteSegPath, "err", err)
+				}
+			}
 			rsd.isComplete = true
 			rsd.dur = rsd.totDur
 			ch.addChunkData(*rsd)
